@@ -107,6 +107,31 @@ CLAIMED["C09"] = dict(
          "C09_build_total assumes message sequence numbers < 65536 and MTU <= 65535.",
     design="§8 C09", technique="Lean 4 proof (codec inverses, packing invariant, permutation conservation) + differential correspondence")
 
+CLAIMED["C18"] = dict(
+    text="Lean theorems: for every wire opcode, mask flag, key and payload (any length < 2^63) the library's frame bytes equal an "
+         "independently written RFC 6455 5.2 encoder (C18_server_frames_rfc, C18_lib_frames_rfc, exact header bytes at 125/126/127/65535/"
+         "65536), parsing an RFC frame returns the same frame with the payload unmasked (C18_parse_rfc, xor-mask involution by "
+         "induction), and for EVERY list of client frames and EVERY way of cutting the byte stream into reads the handler delivers "
+         "exactly those frames, once each, in order (C18_stream, C18_stream_prefix, C18_chunkings_agree). Model tied to http_server.py by "
+         "differential runs on the real WebSocketFrame and, through Channel.dataReceived, on every/random chunkings.",
+    note=TRUST + "the pseudo opcode Open (0xFF) lies outside the RFC statements; endpoint callback and request.write neither raise nor re-enter; "
+         "CPython struct hand-modelled; HTTP upgrade not modelled.",
+    design="§8 C18", technique="Lean 4 proof (codec vs. independent RFC spec, stream invariant over all chunkings) + differential correspondence")
+
+CLAIMED["C04"] = dict(
+    text="Lean theorems: a datagram whose position was already accepted is dropped whole - the full endpoint state is the old one with "
+         "dropped+1 (C04_duplicate_dropped_whole); an accepted datagram is new and the window then represents old set + this position "
+         "(C04_accepted_is_new); hence for EVERY history of one endpoint (receptions in any order with any duplication/replay, interleaved "
+         "with any other operations) spanning less than half the ring no position is accepted twice (C04_datagram_at_most_once, by "
+         "refinement of the real BitField to a set, C08). Messages: a duplicate inside the 256 window is ignored, delivery needs the "
+         "window's acceptance, and at-most-once holds while copies arrive at most 256 numbers late (C04_message_once_partial); beyond "
+         "that the model (and the code) re-deliver - C04_redelivery_witness. Two genuine defects are recorded as known findings "
+         "(late retransmission beyond the window; re-sent fragments under new message numbers), each with a deterministic witness "
+         "replayed on every run. Model tied to connection.py by two-party differentials under heavy duplication/delay/replay.",
+    note=TRUST + "the property's own half-ring bound; handshake handlers do not touch the datagram window; message-level statement is partial "
+         "(see known_findings.json).",
+    design="§8 C04", technique="Lean 4 proof (window-refines-set + Nodup invariant over operation histories) + differential correspondence")
+
 REASON_PENDING = "model and theorems for this property are not built yet in this revision (planned, see DESIGN.md §13); not claimed until its check exists"
 
 def main():
